@@ -11,6 +11,8 @@ CONSTANTS
   ChainNs = {1, 3}
   Algo = "arange_int"
   ExtFilter = TRUE
+  FillBy = "reindex"
+  LenBy = "sizes"
   RangeFrom = "index"
 CONSTRAINT Export
 INVARIANT ImplCrop
@@ -25,6 +27,7 @@ INVARIANT ImplExactlyWidth
 INVARIANT ImplPlacement
 INVARIANT LawOffs
 INVARIANT NeverOffLattice
+INVARIANT ImplKeepsSamples
 INVARIANT ImplChain
 INVARIANT LawChainExact
 INVARIANT LawChainKeepsOriginals
